@@ -111,6 +111,8 @@ type vfResult struct {
 	Completed   bool              `json:"completed"`
 }
 
+func vfEnv(key string) string { return os.Getenv(key) }
+
 func vfEnvInt(key string, def int) int {
 	if v := os.Getenv(key); v != "" {
 		if n, err := strconv.Atoi(v); err == nil {
